@@ -13,10 +13,12 @@
   these models, whose link to the code is the extracted facts plus that observation.
 -/
 import Manticore.Lemmas.C18
+import Manticore.Lemmas.C18Stop
 namespace Manticore.C18
 open Manticore
 open Manticore.Gen.NbnsDispatch (Handler Site Guard sites guards)
 open Manticore.Gen.ServerFacts (loops stops)
+open Manticore.Gen.ServerFacts2 (handoffs registries spawns held)
 
 /-! ### 1. every NBNS opcode is routed to the handler RFC 1002 assigns it -/
 
@@ -249,6 +251,218 @@ theorem nbns_stop_waits :
     (stops.filter (·.waitsForLoops)).map (·.name) = ["nbtns.Server.Stop", "nbtns.TCPServer.Stop", "nbtns.UDPServer.Stop"] := by
   decide
 
+
+/-! ### 6. the mechanisms behind "stops cleanly" and "isolates": fact + theorem (`Model/C18Stop.lean`)
+
+Each block: a theorem for every schedule of a small model whose parameter is a fact of the source, a witness schedule
+showing what happens when the fact is false, and the fact itself decided on `Gen/ServerFacts2.lean`. -/
+
+/-! #### 6a. the hand-off from `readLoop` to a waiting `Query` -/
+
+/-- **readloop_never_blocks.**  With the hand-off `select { case ch <- msg: default: }`: whatever queries register,
+    receive, give up and deregister, whatever datagrams arrive (any ids, any number of duplicates), the read loop is
+    never parked in a send — it is always back at its `select`, so once `Closed` is closed it can return. -/
+theorem readloop_never_blocks (evs : List CEv) :
+    (crun true cinit evs).parked = none ∧
+    ((crun true cinit evs).closed = true → loopCanExit (crun true cinit evs) = true) := by
+  have h := crun_nb_parked evs cinit rfl
+  exact ⟨h, fun hc => by simp [loopCanExit, hc, h]⟩
+
+/-- **blocking_handoff_wedges.**  With a plain `ch <- msg` into the 1-buffered channel: one query and three responses
+    carrying its id (the first fills the buffer, the second blocks until `Query` receives — its only receive —, the
+    third blocks on a channel nobody will receive from again).  From then on, whatever happens — further datagrams,
+    other queries, `Close` — the loop stays parked: nothing is delivered any more and the loop cannot return. -/
+theorem blocking_handoff_wedges :
+    ∃ evs : List CEv, ∀ more : List CEv,
+      (crun false cinit (evs ++ more)).parked.isSome = true ∧ loopCanExit (crun false cinit (evs ++ more)) = false := by
+  refine ⟨[.store 7, .recv ⟨7, true, 1⟩, .recv ⟨7, true, 2⟩, .take 7, .recv ⟨7, true, 3⟩], fun more => ?_⟩
+  have hw : wedged (crun false cinit [.store 7, .recv ⟨7, true, 1⟩, .recv ⟨7, true, 2⟩, .take 7, .recv ⟨7, true, 3⟩]) = true := by
+    decide
+  have := wedged_run false more _ hw
+  simp only [crun, List.foldl_append] at this ⊢
+  exact wedged_parked _ this
+
+/-- **Fact of the source**: the only channel send of the two packages is the one in `Client.readLoop`, it is a `case`
+    of a `select` with a `default:`; the channel `Query` registers has capacity 1 and is deregistered by a deferred
+    `Delete` under the same key. -/
+theorem handoff_is_nonblocking :
+    handoffs.map (·.fn) = ["llmnr.Client.readLoop"] ∧ (∀ h ∈ handoffs, h.nonBlocking = true) ∧
+    (registries.filter (·.field == "Queries")).map (fun r => (r.fn, r.chanCap, r.deleteDeferred, r.sameKey))
+      = [("llmnr.Client.Query", some 1, true, true)] := by
+  decide
+
+/-! #### 6b. the registry of live TCP connections -/
+
+/-- **stop_closes_every_connection.**  If the registry key is unique per live connection (`TValid`: a new
+    connection's key differs from the key of every connection whose handler has not returned; a read on a closed
+    connection fails), then for every interleaving of accepts and handler steps before, between and after the two
+    steps of `Stop` (`close(quit)`, then the `Range` that closes what the registry holds): right after the `Range`
+    every connection whose handler sits in a read has been closed, and every handler that existed then has returned
+    after at most two more steps of its own. -/
+theorem stop_closes_every_connection (pre mid post : List TEv)
+    (hv : TValid tinit (pre ++ .closeQuit :: (mid ++ .rangeClose :: post))) :
+    (∀ i, ((trun tinit (pre ++ .closeQuit :: (mid ++ [.rangeClose]))).conn i).pc = .inRead →
+        ((trun tinit (pre ++ .closeQuit :: (mid ++ [.rangeClose]))).conn i).closed = true) ∧
+    (∀ i, i < (trun tinit (pre ++ .closeQuit :: (mid ++ [.rangeClose]))).n → 2 ≤ hsteps i post →
+        ((trun tinit (pre ++ .closeQuit :: (mid ++ .rangeClose :: post))).conn i).pc = .exited) :=
+  stop_closes_gen pre mid post hv
+
+/-- **constant_key_leaves_connection_open.**  With a key that is the same for every accepted connection (the
+    listener's own address): two connections, both handlers waiting in their read; the second `Store` replaced the
+    first, so `Stop`'s `Range` closes one connection — the other handler stays in its read on an open connection (in
+    the code: until the 30 s deadline). -/
+theorem constant_key_leaves_connection_open :
+    ∃ evs : List TEv, (trun tinit evs).quit = true ∧
+      ((trun tinit evs).conn 0).pc = .inRead ∧ ((trun tinit evs).conn 0).closed = false ∧
+      ((trun tinit evs).conn 1).closed = true :=
+  ⟨[.accept 5, .accept 5, .hstep 0 true, .hstep 0 true, .hstep 1 true, .hstep 1 true, .closeQuit, .rangeClose],
+    by decide⟩
+
+/-- **Fact of the source**: `tcpConns` is keyed by `conn.RemoteAddr().String()` of the stored connection (the peer's
+    endpoint: unique among the live connections accepted by one listener), stored and deleted (deferred) under the
+    same expression; every failed read of the connection makes the handler return; `Stop` ranges over the registry
+    after closing the quit channel and before waiting, closing every value. -/
+theorem registry_key_is_peer_address :
+    (registries.filter (·.field == "tcpConns")).map (fun r => (r.fn, r.keyKind))
+      = [("nbtns.TCPServer.handleConnection", .peerAddr)] ∧
+    (∀ r ∈ registries, r.field = "tcpConns" → r.deleteDeferred = true ∧ r.sameKey = true ∧
+      r.readErrorReturns = true ∧ r.stopRanges = true ∧ r.rangeClosesEvery = true) ∧
+    (Gen.ServerFacts2.stops.filter (·.ranges)).map (fun s => (s.name, s.rangeAfterClose, s.rangeBeforeWait))
+      = [("nbtns.TCPServer.Stop", true, true)] := by
+  decide
+
+/-! #### 6c. the WaitGroup -/
+
+/-- **waitgroup_discipline_sound.**  Discipline: `wg.Add(1)` is a statement before the `go` statement, executed by a
+    goroutine that holds a count itself (the serve loop, counted by `Start` before `Stop` can run); the goroutine's
+    first statement is `defer wg.Done()`; `Stop` enters `wg.Wait()` after closing the quit channel.  Then for every
+    schedule: no `Add` ever happens from zero while a `Wait` is in progress and no `Done` goes below zero; `Wait` has
+    returned only if the serve goroutine and every goroutine it started have returned; and when they all have, `Wait`
+    does return. -/
+theorem waitgroup_discipline_sound (evs : List WEv) :
+    (wgrun true true wginit evs).misuse = false ∧
+    ((wgrun true true wginit evs).returned = true →
+      (wgrun true true wginit evs).serve = .exited ∧ (wgrun true true wginit evs).working = 0 ∧
+      (wgrun true true wginit evs).born = 0) ∧
+    ((wgrun true true wginit evs).waiting = true → (wgrun true true wginit evs).serve = .exited →
+      (wgrun true true wginit evs).working = 0 →
+      (wgstep true true (wgrun true true wginit evs) .waitReturn).returned = true) := by
+  have h := winv_run true evs wginit winv_init
+  have hl := noleak_run evs wginit rfl
+  refine ⟨h.misuse, fun hr => ⟨(h.ret hr).1, (h.ret hr).2.1, h.born⟩, ?_⟩
+  intro hw hs h0
+  have hc := h.count
+  rw [hs, h0, hl] at hc
+  simp [wgstep, hw, hc, alive, pending]
+
+/-- **add_inside_goroutine_races.**  With the `Add` inside the goroutine: the loop starts a goroutine, `Stop` closes
+    the quit channel, the loop returns, `Wait` finds the counter at zero and returns while the goroutine has not even
+    begun — and the goroutine's `Add` then hits a zero counter with a `Wait` in progress (the documented misuse;
+    "WaitGroup is reused before previous Wait has returned"). -/
+theorem add_inside_goroutine_races :
+    ∃ evs : List WEv, (wgrun false true wginit evs).returned = true ∧ (wgrun false true wginit evs).born = 1 ∧
+      (wgrun false true wginit evs).misuse = false ∧
+      (wgstep false true (wgrun false true wginit evs) .hstart).misuse = true :=
+  ⟨[.serve false, .stopClose, .serve true, .waitStart, .waitReturn], by decide⟩
+
+/-- **done_not_deferred_blocks_wait.**  With `wg.Done()` as the goroutine's last statement instead of a deferred
+    first one: a single goroutine leaving through an early `return` keeps its count for ever — whatever happens
+    afterwards, `Wait` (and so `Stop`) never returns. -/
+theorem done_not_deferred_blocks_wait :
+    ∃ evs : List WEv, ∀ more : List WEv, (wgrun true false wginit (evs ++ more)).returned = false := by
+  refine ⟨[.serve false, .serve false, .hfinish true], fun more => ?_⟩
+  have hi := winv_run false [.serve false, .serve false, .hfinish true] wginit winv_init
+  have := leaked_run false more _ hi (by decide) (by decide)
+  simp only [wgrun, List.foldl_append] at this ⊢
+  exact this.2
+
+/-- **Fact of the source**: every `go` statement either is tracked — `wg.Add(1)` before it in the same block, none
+    after it, none inside the goroutine, the goroutine's first statement defers `wg.Done()` (its only `Done`), and the
+    statement is executed by a goroutine that holds a count itself or, outside every receive loop, by `Start` — or is
+    not tracked at all (no `Add`, no `Done`); every `Stop` that waits does so as its last statement, after the
+    `Once` that closes the quit channel. -/
+theorem waitgroup_discipline_holds :
+    (∀ sp ∈ spawns,
+      (sp.addBeforeGo = true ∧ sp.addN = 1 ∧ sp.addAfterGo = false ∧ sp.addInGoroutine = false ∧
+        sp.done = .deferredFirst ∧ (sp.siteHoldsCount = true ∨ sp.inReceiveLoop = false)) ∨
+      (sp.addBeforeGo = false ∧ sp.addAfterGo = false ∧ sp.addInGoroutine = false ∧ sp.done = .absent)) ∧
+    (spawns.filter (·.addBeforeGo)).map (fun sp => (sp.site, sp.callee))
+      = [("nbtns.Server.Start", "Server.serve"), ("nbtns.TCPServer.Start", "TCPServer.serve"),
+         ("nbtns.TCPServer.serve", "TCPServer.handleConnection"), ("nbtns.UDPServer.Start", "UDPServer.serve")] ∧
+    (∀ s ∈ Gen.ServerFacts2.stops, s.waits = true → s.closeBeforeWait = true ∧ s.waitLast = true) ∧
+    (Gen.ServerFacts2.stops.filter (·.waits)).map (·.name)
+      = ["nbtns.Server.Stop", "nbtns.TCPServer.Stop", "nbtns.UDPServer.Stop"] := by
+  decide
+
+/-! #### 6d. where the private copy of the datagram is taken -/
+
+/-- **isolated_if_copied_before_go.**  `isolated_if_copied` on the finer model in which taking the copy is a step of
+    its own: when the copy is a statement of the loop body before `go`, every schedule of receptions, copy steps and
+    handler runs sends each response to a client that sent some datagram `d`, computed from exactly that `d`. -/
+theorem isolated_if_copied_before_go {σ : Type} (respond : σ → Bytes → σ × Bytes) (cap : Nat) (s : σ)
+    (sched : List Step2) :
+    ∀ p ∈ (wrun2 respond true (winit cap s) sched).outbox,
+      ∃ d s', (p.1, d) ∈ (wrun2 respond true (winit cap s) sched).sent ∧ p.2 = (respond s' d).2 :=
+  (isolated_run2 respond sched _ (isolated_init respond cap s)).outbox
+
+/-- **copy_inside_goroutine_leaks.**  When the goroutine takes the copy itself, the copy races with the next read
+    into the same buffer: two datagrams, then the first goroutine copies — client 1 is sent client 2's id. -/
+theorem copy_inside_goroutine_leaks :
+    ∃ (sched : List Step2), ∃ p ∈ (wrun2 echoId false (winit 4 ()) sched).outbox,
+      ¬ ∃ d s', (p.1, d) ∈ (wrun2 echoId false (winit 4 ()) sched).sent ∧ p.2 = (echoId s' d).2 := by
+  refine ⟨[.recv 1 [0, 1, 9, 9], .recv 2 [0, 2, 7, 7], .copy 0, .run 0], (1, [0, 2]), by decide, ?_⟩
+  rintro ⟨d, s', hd, hr⟩
+  have hs : (wrun2 echoId false (winit 4 ()) [.recv 1 [0, 1, 9, 9], .recv 2 [0, 2, 7, 7], .copy 0, .run 0]).sent
+      = [(1, [0, 1, 9, 9]), (2, [0, 2, 7, 7])] := by decide
+  rw [hs] at hd
+  simp only [List.mem_cons, Prod.mk.injEq, List.mem_nil_iff, or_false] at hd
+  rcases hd with ⟨_, rfl⟩ | ⟨h1, _⟩
+  · simp [echoId] at hr
+  · simp at h1
+
+/-- **Fact of the source**: in every receive loop that reuses a buffer, what the goroutine gets is a copy made in the
+    loop body before the `go` statement (`make` + `copy`) or a value decoded from the buffer there; no goroutine takes
+    its copy itself or is handed a view. -/
+theorem copy_taken_before_go :
+    (spawns.filter (·.inReceiveLoop)).map (fun sp => (sp.site, sp.copyPlace))
+      = [("llmnr.Server.Serve", .decodedBeforeGo), ("nbtns.Server.serve", .beforeGo),
+         ("nbtns.TCPServer.serve", .noBuffer), ("nbtns.UDPServer.serve", .beforeGo)] ∧
+    (∀ sp ∈ spawns, sp.copyPlace = .beforeGo ∨ sp.copyPlace = .decodedBeforeGo ∨ sp.copyPlace = .noBuffer) := by
+  decide
+
+/-! #### 6e. the logger's mutex -/
+
+/-- **no_deadlock_without_reentry.**  Any number of threads, each a program of acquire / release / work on one
+    non-reentrant mutex that never acquires while holding (`wellNested`): under every schedule, as long as some thread
+    has something left to do, some thread can move.  -/
+theorem no_deadlock_without_reentry (progs : Nat → List LInstr) (h : ∀ t, wellNested false (progs t) = true)
+    (sched : List Nat) (t : Nat) (ht : (lrun (linit progs) sched).prog t ≠ []) :
+    ∃ u, lenabled (lrun (linit progs) sched) u = true :=
+  linv_enabled _ (linv_run sched _ (fun u => by simpa [linit, LInv] using h u)) t ht
+
+/-- **reentrant_lock_deadlocks.**  A thread that holds the mutex and calls something that acquires it: it never
+    moves again, the mutex is never released, and every thread that is waiting for the mutex (every later log call
+    of the process) waits for ever — under every schedule. -/
+theorem reentrant_lock_deadlocks (s : LState) (t : Nat) (r : List LInstr) (ho : s.owner = some t)
+    (hp : s.prog t = .acquire :: r) (sched : List Nat) :
+    (lrun s sched).owner = some t ∧ (lrun s sched).prog t = .acquire :: r ∧
+    ∀ u r', s.prog u = .acquire :: r' → (lrun s sched).prog u = .acquire :: r' :=
+  self_deadlock_run t r sched s ho hp
+
+/-- the program of a lock holder is well nested exactly when nothing it calls under the lock acquires the lock -/
+theorem held_program_well_nested_iff (h : Gen.ServerFacts2.Held) :
+    wellNested false (heldProgram h) = h.calls.all (fun c => !c.2) := by
+  simp only [heldProgram]
+  exact wellNested_calls h.calls
+
+/-- **Fact of the source**: the one function that takes `logger.Lock()` (`llmnr.HandlerDescribePacket`) calls, while
+    holding it, no function of package logger that acquires `LoggerLock` — directly or through the package's call
+    graph: its program is well nested. -/
+theorem logger_calls_under_lock_do_not_reacquire :
+    held.map (·.fn) = ["llmnr.HandlerDescribePacket"] ∧
+    (∀ h ∈ held, h.reacquires = false ∧ wellNested false (heldProgram h) = true) := by
+  decide
+
 /-! ### non-vacuity -/
 
 private def site0 : Site :=
@@ -262,5 +476,21 @@ example : Consistent true ⟨true, true, .inRead, 0, 1, false⟩ [.loop .closedE
 example : (srvRun true srvInit [.loop .timeout, .stop, .loop .closedErr, .stop, .loop .data]).pc = .exited := by decide
 example : (wrun echoId true (winit 4 ()) [.recv 1 [0, 1, 9, 9], .recv 2 [0, 2, 7, 7], .run 0]).outbox = [(1, [0, 1])] := by
   decide
+-- the hypotheses of §6 are satisfiable, and the positive models do what the witnesses of the negative ones cannot
+example : TValid tinit [.accept 5, .accept 6, .hstep 0 true, .hstep 0 true, .hstep 1 true, .closeQuit, .hstep 1 true,
+    .rangeClose, .hstep 0 false, .hstep 1 false] := by
+  simp [TValid, tvalid, tstep, tinit, upd, aput, aerase, texit]
+  intro j; split <;> simp
+example : ((trun tinit [.accept 5, .accept 6, .hstep 0 true, .hstep 0 true, .hstep 1 true, .hstep 1 true, .closeQuit,
+    .rangeClose]).conn 0).closed = true := by decide
+example : (wgrun true true wginit [.serve false, .serve false, .stopClose, .serve true, .waitStart, .waitReturn]).returned
+    = false := by decide
+example : (wgrun true true wginit [.serve false, .serve false, .stopClose, .serve true, .waitStart, .hfinish true,
+    .waitReturn]).returned = true := by decide
+example : (crun true cinit [.store 7, .recv ⟨7, true, 1⟩, .recv ⟨7, true, 2⟩, .take 7, .recv ⟨7, true, 3⟩, .close]).qs
+    = [(7, ⟨some ⟨7, true, 3⟩, true⟩)] := by decide
+example : wellNested false [.acquire, .work, .work, .release] = true := by decide
+example : (lrun (linit (fun t => if t = 0 then [.acquire, .acquire, .work, .release, .release] else [.acquire, .work, .release]))
+    [0]).owner = some 0 := by decide
 
 end Manticore.C18
